@@ -763,6 +763,13 @@ impl<'tcx> Dumper<'tcx> {
             } else {
                 let body = tcx.mir_for_ctfe(did);
                 o.extend(self.body(did, body));
+                // promoted bodies of a const item (`const ALL: &[Self] = &[Self::A, ..]`: the array is promoted #0)
+                let proms = tcx.promoted_mir(did);
+                let mut pj = Vec::new();
+                for pb in proms.iter() {
+                    pj.push(J::obj(self.body(did, pb)));
+                }
+                o.push(("promoted", J::Arr(pj)));
                 o.push(("const_ty", s(ty_str(tcx.type_of(did).skip_binder()))));
                 if !tcx.generics_of(did).requires_monomorphization(tcx) {
                     if let Ok(cv) = tcx.const_eval_poly(did) {
